@@ -1,5 +1,6 @@
 import QuinnModel.Gen.C12
 import QuinnModel.Gen.SendGate
+import QuinnModel.Conn.Sizing
 /-!
 Skeleton of the send gate of `Connection::poll_transmit` (quinn-proto/src/connection/mod.rs) and of the probe credits
 granted by `Connection::on_loss_detection_timeout`, as of `fix: congestion check for application data coalesced behind
@@ -12,7 +13,11 @@ the three numbers the congestion test would see at that point (`in_flight.bytes`
 test itself is `Gen.congestionBlocked` (generated).  Guards and effects are pinned by the shape anchors of
 `Gen/SendGate.lean`:
 
+  order          the spaces are visited in the order Initial, Handshake, Data; `space_idx` only grows (anchors
+                 `sgSpaceOrderShape`, `sgSpaceIdxOnlyIncrements`): an iteration for a space below `cur` does not exist
   new datagram   `if ack_eliciting && loss_probes[space] == 0 { if blocked { space_idx += 1; continue } .. }`
+                 `next_datagram_size_limit` = `Sizing.nextDatagramLimitAhead` (clamped to INITIAL_MTU for a loss probe
+                 and while a later space holds a credit that may be coalesced into this datagram)
                  `datagram_is_loss_probe = loss_probes[space] != 0;  if != 0 { loss_probes[space] -= 1 }`
                  `datagram_congestion_checked = ack_eliciting`
   coalescing     `if ack_eliciting && space == Data && !datagram_congestion_checked && loss_probes[space] == 0 { if blocked { continue } }`
@@ -33,6 +38,8 @@ structure Offer where
   inFlight : Nat
   bytes : Nat
   window : Nat
+  /-- `segment_size` when the iteration runs -/
+  segment : Nat := 0
 
 structure St where
   lp0 : Nat
@@ -48,8 +55,18 @@ structure St where
   tested : Bool
   /-- ghost: datagrams charged to a loss probe since the last probe timeout -/
   probeDatagrams : Nat
+  /-- the space of the last iteration that built a packet in this call (`space_idx` is at least this) -/
+  cur : Nat := 0
+  /-- the space that started the current datagram -/
+  opener : Nat := 0
+  /-- `next_datagram_size_limit` of the current datagram -/
+  limit : Nat := 0
 
 def lp (s : St) (i : Nat) : Nat := match i with | 0 => s.lp0 | 1 => s.lp1 | _ => s.lp2
+
+/-- `probe_may_follow`: a space after `i` holds a loss-probe credit -/
+def laterCredit (s : St) (i : Nat) : Bool :=
+  match i with | 0 => s.lp1 != 0 || s.lp2 != 0 | 1 => s.lp2 != 0 | _ => false
 
 def lpDec (s : St) (i : Nat) : St :=
   match i with | 0 => { s with lp0 := s.lp0 - 1 } | 1 => { s with lp1 := s.lp1 - 1 } | _ => { s with lp2 := s.lp2 - 1 }
@@ -67,10 +84,13 @@ def step (s : St) (o : Offer) : St × Out :=
   if !o.coalesce || !s.dgram then
     if o.ae && lp s o.space == 0 && Gen.congestionBlocked o.inFlight o.bytes o.window then (s, .blocked)
     else if lp s o.space == 0 then
-      ({ s with dgram := true, checked := o.ae, isProbe := false, tested := o.ae }, .pkt o.space o.ae false o.ae)
+      ({ s with dgram := true, checked := o.ae, isProbe := false, tested := o.ae, cur := o.space, opener := o.space,
+                limit := (Sizing.nextDatagramLimitAhead 0 (laterCredit s o.space) o.segment).2 }, .pkt o.space o.ae false o.ae)
     else
       ({ lpDec s o.space with dgram := true, checked := o.ae, isProbe := true, tested := false,
-                              probeDatagrams := s.probeDatagrams + 1 }, .pkt o.space o.ae true false)
+                              probeDatagrams := s.probeDatagrams + 1, cur := o.space, opener := o.space,
+                              limit := (Sizing.nextDatagramLimitAhead (lp s o.space) (laterCredit s o.space) o.segment).2 },
+       .pkt o.space o.ae true false)
   else
     let needs := o.ae && o.space == 2 && !s.checked && lp s o.space == 0
     if needs && Gen.congestionBlocked o.inFlight o.bytes o.window then (s, .blocked)
@@ -79,17 +99,18 @@ def step (s : St) (o : Offer) : St × Out :=
       let tested' := s.tested || needs
       if lp s o.space != 0 && !s.isProbe then
         ({ lpDec s o.space with checked := checked', tested := tested', isProbe := true,
-                                probeDatagrams := s.probeDatagrams + 1 }, .pkt o.space o.ae true tested')
+                                probeDatagrams := s.probeDatagrams + 1, cur := o.space }, .pkt o.space o.ae true tested')
       else
-        ({ s with checked := checked', tested := tested' }, .pkt o.space o.ae s.isProbe tested')
+        ({ s with checked := checked', tested := tested', cur := o.space }, .pkt o.space o.ae s.isProbe tested')
 
 /-- a new call of `poll_transmit`: no datagram yet -/
-def newCall (s : St) : St := { s with dgram := false, checked := false, isProbe := false, tested := false }
+def newCall (s : St) : St := { s with dgram := false, checked := false, isProbe := false, tested := false, cur := 0 }
 
-/-- one `poll_transmit`: any sequence of iterations -/
+/-- one `poll_transmit`: any sequence of iterations; an offer for a space the loop has already left is not an
+    iteration of the loop and is skipped -/
 def call (s : St) : List Offer → St × List Out
   | [] => (s, [])
-  | o :: os => let r := step s o; let r2 := call r.1 os; (r2.1, r.2 :: r2.2)
+  | o :: os => if o.space < s.cur then call s os else let r := step s o; let r2 := call r.1 os; (r2.1, r.2 :: r2.2)
 
 /-- any number of `poll_transmit` calls -/
 def calls (s : St) : List (List Offer) → St × List Out
